@@ -44,6 +44,23 @@ REPLAYERS = {}
 # ---------------------------------------------------------------------------------------------
 
 
+def recorditer_traces(run, scratch, files, crlf=False):
+    """whole files through the real record iterator, validated item by item against the RecordIter state machine"""
+    for f in files:
+        name = "Trace_RecordIter_" + os.path.basename(f).replace(".txt", "") + ("_crlf" if crlf else "")
+        out = scratch.path(f"events-{name}.ndjson")
+        pgv(["trace", "recorditer", out, "--files", f] + (["--crlf"] if crlf else []))
+        events = read_ndjson(out)
+        idx = next(i for i, e in enumerate(events) if e["t"] == "item" and e["item"]["k"] == "class")
+
+        def corrupt(ev):
+            ev["item"]["obfuscated"] = ev["item"]["obfuscated"] + [120]
+            return ev
+        validate_stateful_trace(run, scratch, name, "Trace_RecordIter", events, 1, idx, corrupt,
+                                signature=lambda b: {"file": os.path.basename(f)})
+        run.steps[-1]["file"] = os.path.basename(f)
+
+
 @prop("C05")
 def c05(run, scratch):
     thorough = run.tier == "thorough"
@@ -64,6 +81,9 @@ def c05(run, scratch):
         and b"\xc3" not in bytes(ev["line"]) and ev["got"]["lm"] != [],
         signature=lambda ev: {"line": b2s(ev["line"])})
     run.sample({"trace_event": {"line": b2s(events[0]["line"]), "got": events[0]["got"]["k"]}})
+    recorditer_traces(run, scratch, SMALL_CORPUS[:2] + BIG_CORPUS[:1] + (BIG_CORPUS[1:] if thorough else []))
+    if thorough:
+        recorditer_traces(run, scratch, BIG_CORPUS[:1], crlf=True)
     run.exhaustive = False
     run.assumptions += [
         "TLC (tla2tools 1.8.0) and its Json/IOUtils module overrides",
@@ -108,6 +128,7 @@ def c06(run, scratch):
                         timeout=3000, corrupt=_stream_corrupt,
                         canary_pred=lambda ev: len(ev["splits"]) > 0 and len(ev["items"]) > 0,
                         signature=lambda ev: {"src": b2s(ev["src"])[:120]})
+    recorditer_traces(run, scratch, SMALL_CORPUS[2:4] + (BIG_CORPUS if thorough else BIG_CORPUS[1:]), crlf=True)
     run.extra["exhaustive_note"] = ("MC_Stream enumerates every string within its bounds; every string up to the "
                                     "emit bounds is replayed into the real iterator; generated/corpus inputs are sampled")
     run.assumptions += ["TLC + Json module", "harness records what iter() yields (enc.rs, canary-checked)",
